@@ -24,9 +24,12 @@ CHECKS = {
  'C33': ('exploration', 'run-time contract against an independent spec_expand over bounded enumeration of scripts and reference graphs',
          'scripts up to size 5 with references in type/code/data position, acyclic constant graphs to depth 3, unknown hashes; hash recomputed independently (Micheline encoder + blake2b + base58 expr)',
          'bounded; shell RPC stubbed by monkeypatch; specs/global_constants.py checked against 7 recorded hashes', '5/C33'),
- 'C28': ('exploration', 'run-time contract with ghost request counter over all outcome sequences (bounded)',
-         'all success/error outcome sequences up to length 6 (8 thorough) for 1..4 nodes on the real RpcMultiNode with stubbed inner nodes',
-         'inner RpcNode.request stubbed; bounded history length', '5/C28'),
+ 'C28': ('proof', 'PyVC: VCs from the real AST of RpcMultiNode.request with ghost request counter, z3 (P); run-time contract over all outcome sequences (R, bounded, not counted)',
+         'the rotation invariant _next_i == k mod n is preserved by request on normal and exceptional exit for all n >= 1, all k, with the inner request havocked (returns or raises RpcError/any exception): by induction every outcome sequence sends request i to node i mod n',
+         'assumed: self.nodes is a list of n>=1 nodes; inner request havocked; PyVC encoding; z3', '5/C28'),
+ 'C31': ('other', 'PyVC symbolic execution of the real hash.py ASTs on lists of concrete length with symbolic leaves and uninterpreted blake2b (S, bounded length); run-time contract vs specs/merkle.py (R)',
+         'for every list length 0..33 (129 thorough) and ALL hash values the result term equals the padded-power-of-two Merkle root term; list/list-list/payload hashes compose it with the right base58 kinds; an unbounded proof of the in-place array algorithm is not attempted',
+         'assumed: blake2b uninterpreted, concatenation free; base58 by the C09 contract; bounded list length', '5/C31'),
 }
 NA_REASON = 'check not built yet (framework under construction); see DESIGN.md sec. 5 for the plan'
 m = {"version": 1, "setup_cmd": "./setup.sh",
